@@ -51,17 +51,20 @@ type scen struct {
 	Store  string
 	Faults []string
 	NMsg   int
+	Pace   int
 }
 
 func (s scen) String() string {
-	return fmt.Sprintf("store=%s faults=%v sends/side=%d", s.Store, s.Faults, s.NMsg)
+	return fmt.Sprintf("store=%s faults=%v sends/side=%d pace<%dms", s.Store, s.Faults, s.NMsg, s.Pace)
 }
 
 func scenario(c *core.Ctx, r *core.Result, idx int, rng *rand.Rand, isolated bool) (verdict string) {
-	sc := scen{Store: core.Pick(rng, "memory", "memory", "file"), NMsg: 30 + rng.Intn(41)}
+	// Pace: upper bound of the pause between two sends; the slow paces keep both applications sending across all
+	// faults, so that sends fall between failed logon attempts and inside recoveries
+	sc := scen{Store: core.Pick(rng, "memory", "memory", "file"), NMsg: 30 + rng.Intn(41), Pace: core.Pick(rng, 40, 40, 120, 250)}
 	nf := 1 + rng.Intn(4)
 	for i := 0; i < nf; i++ {
-		k := core.Pick(rng, "cut-bytes", "cut-bytes", "cut-bytes", "cut-now", "cut-during-logon", "cut-during-replay")
+		k := core.Pick(rng, "cut-bytes", "cut-bytes", "cut-bytes", "cut-now", "cut-during-logon", "cut-during-logon", "cut-during-replay")
 		if sc.Store == "file" && rng.Intn(3) == 0 {
 			k = core.Pick(rng, "restart-initiator", "restart-acceptor")
 		}
@@ -142,7 +145,7 @@ func scenario(c *core.Ctx, r *core.Result, idx int, rng *rand.Rand, isolated boo
 					}
 				}
 				s.mu.Unlock()
-				time.Sleep(time.Duration(rr.Intn(40)) * time.Millisecond)
+				time.Sleep(time.Duration(rr.Intn(sc.Pace)) * time.Millisecond)
 			}
 		}(si, s, rand.New(rand.NewSource(rng.Int63())))
 	}
